@@ -2452,17 +2452,70 @@ private:
 
         constexpr const term_subset& make_nterm_first(size16_t nt)
         {
-            if (nterm_first_analyzed.test(nt))
-                return nterm_first[nt];
-            nterm_first_analyzed.set(nt);
-
-            const utils::slice& s = gi.nterm_rule_slices[nt];
-            for (size_t i = 0u; i < s.n; ++i)
-            {
-                const rule_info& ri = gi.rule_infos[s.start + i];
-                nterm_first[nt].add(make_right_side_slice_first(ri, 0));
-            }
+            analyze_nterm_sets();
             return nterm_first[nt];
+        }
+
+        constexpr void analyze_nterm_sets()
+        {
+            if (nterm_sets_analyzed)
+                return;
+            nterm_sets_analyzed = true;
+
+            bool changed = true;
+            while (changed)
+            {
+                changed = false;
+                for (size16_t i = 0u; i < rule_count; ++i)
+                {
+                    const rule_info& ri = gi.rule_infos[i];
+                    if (nterm_empty.test(ri.l_idx))
+                        continue;
+                    bool all_empty = true;
+                    for (size_t j = 0u; j < ri.r_elements; ++j)
+                    {
+                        const symbol& s = gi.right_sides[ri.r_idx][j];
+                        if (s.term || !nterm_empty.test(s.idx))
+                        {
+                            all_empty = false;
+                            break;
+                        }
+                    }
+                    if (all_empty)
+                    {
+                        nterm_empty.set(ri.l_idx);
+                        changed = true;
+                    }
+                }
+            }
+
+            changed = true;
+            while (changed)
+            {
+                changed = false;
+                for (size16_t i = 0u; i < rule_count; ++i)
+                {
+                    const rule_info& ri = gi.rule_infos[i];
+                    term_subset first = nterm_first[ri.l_idx];
+                    for (size_t j = 0u; j < ri.r_elements; ++j)
+                    {
+                        const symbol& s = gi.right_sides[ri.r_idx][j];
+                        if (s.term)
+                        {
+                            first.set(s.idx);
+                            break;
+                        }
+                        first.add(nterm_first[s.idx]);
+                        if (!nterm_empty.test(s.idx))
+                            break;
+                    }
+                    if (!(first == nterm_first[ri.l_idx]))
+                    {
+                        nterm_first[ri.l_idx] = first;
+                        changed = true;
+                    }
+                }
+            }
         }
 
         constexpr bool make_right_side_slice_empty(const rule_info& ri, size_t start)
@@ -2491,19 +2544,8 @@ private:
 
         constexpr bool make_nterm_empty(size16_t nt)
         {
-            if (nterm_empty_analyzed.test(nt))
-                return nterm_empty.test(nt);
-            nterm_empty_analyzed.set(nt);
-
-            const utils::slice& s = gi.nterm_rule_slices[nt];
-            for (size_t i = 0u; i < s.n; ++i)
-            {
-                if (make_right_side_empty(gi.rule_infos[s.start + i]))
-                {
-                    return (nterm_empty.set(nt), true);
-                }
-            }
-            return (nterm_empty.reset(nt), false);
+            analyze_nterm_sets();
+            return nterm_empty.test(nt);
         }
 
         const grammar_info& gi;
@@ -2522,8 +2564,7 @@ private:
         right_side_slice_subset right_side_slice_first_analyzed = {};
         nterm_subset nterm_empty = { };
         term_subset nterm_first[nterm_count] = { };
-        nterm_subset nterm_empty_analyzed = { };
-        nterm_subset nterm_first_analyzed = { };
+        bool nterm_sets_analyzed = false;
     };
 
     constexpr static size16_t get_parse_table_idx(bool term, size16_t idx)
